@@ -130,6 +130,11 @@ func c03History(r *rand.Rand, ln, rep, steps int) []Ev {
 			}
 			src := c03Start(r, sl)
 			e["arg"] = B(src[:])
+			if r.Intn(3) == 0 {
+				// the source is a copy of the packet as it is at that moment, with its private data and extension cut
+				// short (same length byte, same flags, less content): the destination must be re-stuffed
+				e["clone"] = []string{"shorter", "same", "shorter"}[r.Intn(3)]
+			}
 		}
 		if len(h) == 0 {
 			e["start"] = B(p[:])
@@ -383,6 +388,18 @@ func (c03) Exec(h []Ev) []Ev {
 			case "SetAdaptationField":
 				var src packet.Packet
 				copy(src[:], GB(e["arg"]))
+				if mode := GS(e["clone"]); mode != "" {
+					src = p
+					if sa, serr := src.AdaptationField(); serr == nil && mode == "shorter" {
+						if d, derr := sa.TransportPrivateData(); derr == nil && len(d) > 0 {
+							sa.SetTransportPrivateData(append([]byte(nil), d[:len(d)/2]...))
+						}
+						if d, derr := sa.AdaptationFieldExtension(); derr == nil && len(d) > 0 {
+							sa.SetAdaptationFieldExtension(append([]byte(nil), d[:len(d)/2]...))
+						}
+					}
+					e["arg"] = B(src[:])
+				}
 				keep := src
 				sa, _ := src.AdaptationField()
 				err = p.SetAdaptationField(sa)
